@@ -116,3 +116,183 @@ Print Assumptions cos2_cone_certified.
 Theorem polar_cone_certified : (Rabs (Q2R polar_cone_rad - PI / 36) <= / 2 ^ 57)%R.
 Proof. exact polar_cone_certified. Qed.
 Print Assumptions polar_cone_certified.
+
+(* ============ second half: iteration structure, duplicate removal, stopping rules, termination ============ *)
+(* C02 (fragment: the iteration-structure theorems) - to be merged into Properties/C02.v.
+   Proofs: Proofs/E3FPDedup.v (dedup, sort, union, mask), Proofs/E3FPIterTerm.v (substructures, termination),
+   Proofs/E3FPIterRun.v (stopping rules, concrete instance).
+   Reading guide.  `sub_of l a` = the substructure (strictly increasing atom list) of atom a at level record l;
+   `levels_wf D C sc o k levels` = `levels` is the model's level history after k iterations (level0, then
+   `next_level` on top of it, most recent first) - every reachable state has such a history (`reachable_levels`).
+   `shell_leb` = the order of Fingerprinter._shell_to_tuple, (identifier, centre atom).
+   `dedup cands past` = the loop over `accepted_shells` filtering `past_substructs`; `dedup_ref past cands` = the
+   sub-list of cands whose substructure is neither in `past` nor carried by an earlier candidate. *)
+From E3FP Require Import Base.Prelude Base.ZSet Model.Geometry Model.Stereo Model.Fprint Model.E3FP
+  Gen.Constants Gen.AngleTable Proofs.E3FPDedup Proofs.E3FPIter Proofs.E3FPIterTerm Proofs.E3FPIterRun Proofs.E3FPIterExp.
+
+
+
+(* ---- substructures --------------------------------------------------------------------------------------------- *)
+Theorem substruct_0 : forall D sc a, In a (sc_atoms D sc) -> sub_of (level0 D sc) a = [a].
+Proof. exact substruct_0. Qed.
+Print Assumptions substruct_0.
+
+(* substruct (k) a = {a} U union of substruct (k-1) b over the neighbours b of a within k * multiplier *)
+Theorem substruct_rec : forall D C sc o k prev rest a, In a (sc_atoms D sc) ->
+  sub_of (next_level D C o sc k (prev :: rest)) a =
+  usort (a :: flat_map (fun l => sub_of prev (lk_b D l)) (nbrs D o sc k a)).
+Proof. exact substruct_rec. Qed.
+Print Assumptions substruct_rec.
+Example substruct_rec_nonvacuous : zmem 2 (sc_atoms ZD ex_scene) = true.
+Proof. vm_compute. reflexivity. Qed.
+
+(* every reachable state carries the model's level history, and every stored shell is the shell of a retained atom
+   at one of those levels - its identifier is attributable to that atom's substructure at that level *)
+Theorem reachable_levels : forall D C sc o fuel st,
+  iterate D C o sc fuel (init_state D sc) = Some st ->
+  levels_wf D C sc o (st_k st) (st_levels st) /\
+  forall S s, In S (st_shells st) -> In s S ->
+    exists l a, In l (st_levels st) /\ In a (sc_atoms D sc) /\ s = shell_of l a.
+Proof. exact sinv_run. Qed.
+Print Assumptions reachable_levels.
+Example reachable_levels_nonvacuous : match ex_iter (-1) with Some st => st_k st =? 2 | None => false end = true.
+Proof. vm_compute. reflexivity. Qed.
+
+(* substructures only grow with the level, provided the neighbour test is monotone in the level ... *)
+Theorem substruct_mono : forall D C sc o,
+  (forall k l, 0 <= k -> near D o sc k l = true -> near D o sc (k + 1) l = true) ->
+  forall k levels, levels_wf D C sc o k levels -> forall cur rest, levels = cur :: rest ->
+  forall a, incl (sub_of cur a) (sub_of (next_level D C o sc (k + 1) levels) a).
+Proof. exact substruct_mono. Qed.
+Print Assumptions substruct_mono.
+(* ... which holds over the integers whenever the squared length unit is not negative *)
+Theorem near_mono_ZD : forall (sc : scene ZD) o, 0 <= sc_unit2 ZD sc ->
+  forall k l, 0 <= k -> near ZD o sc k l = true -> near ZD o sc (k + 1) l = true.
+Proof. exact near_mono_ZD. Qed.
+Print Assumptions near_mono_ZD.
+Example near_mono_ZD_nonvacuous :
+  (0 <=? sc_unit2 ZD ex_scene) = true /\
+  existsb (near ZD (ex_opts (-1)) ex_scene 1) (links_of ZD ex_scene 0) = true.
+Proof. vm_compute. split; reflexivity. Qed.
+
+(* ---- duplicate removal ------------------------------------------------------------------------------------------ *)
+Theorem dedup_spec : forall cands past acc past',
+  dedup cands past = (acc, past') ->
+  acc = dedup_ref past cands /\ past' = rev (map s_sub acc) ++ past.
+Proof. exact dedup_spec. Qed.
+Print Assumptions dedup_spec.
+
+(* s is accepted iff it stands at a position of the candidate list before which no candidate carries its
+   substructure, and its substructure is not in `past` *)
+Theorem dedup_In : forall cands past acc past' s,
+  dedup cands past = (acc, past') ->
+  (In s acc <-> exists l1 l2, cands = l1 ++ s :: l2 /\ ~ In (s_sub s) past /\ forall x, In x l1 -> s_sub x <> s_sub s).
+Proof. exact dedup_In. Qed.
+Print Assumptions dedup_In.
+
+Theorem accepted_substructs_distinct : forall cands past acc past',
+  dedup cands past = (acc, past') ->
+  NoDup (map s_sub acc) /\ forall s, In s acc -> ~ In (s_sub s) past.
+Proof. exact accepted_substructs_distinct. Qed.
+Print Assumptions accepted_substructs_distinct.
+
+(* "duplicate substructures are dropped in identifier order": over the candidates sorted by (identifier, centre),
+   of all candidates sharing a substructure not yet seen exactly one is accepted, and it is least in that order *)
+Theorem dedup_keeps_min : forall l past acc past',
+  dedup (sort_by shell_leb l) past = (acc, past') ->
+  (forall s x, In s acc -> In x l -> s_sub x = s_sub s -> shell_leb s x = true) /\
+  (forall x, In x l -> ~ In (s_sub x) past -> exists s, In s acc /\ s_sub s = s_sub x) /\
+  (forall s s', In s acc -> In s' acc -> s_sub s = s_sub s' -> s = s') /\
+  NoDup (map s_sub acc).
+Proof. exact dedup_keeps_min. Qed.
+Print Assumptions dedup_keeps_min.
+(* three candidates, two sharing the unseen substructure [0;1;2]: the one with the smaller identifier is kept;
+   the candidate whose substructure [3] is in `past` is dropped *)
+Example dedup_nonvacuous :
+  dedup (sort_by shell_leb [mkshell 2 1 50 [0; 1; 2]; mkshell 1 1 40 [0; 1; 2]; mkshell 3 1 10 [3]]) [[3]; [0]]
+  = ([mkshell 1 1 40 [0; 1; 2]], [[0; 1; 2]; [3]; [0]]).
+Proof. vm_compute. reflexivity. Qed.
+
+Theorem sort_by_sorts : forall l, Sorted.StronglySorted (fun x y => shell_leb x y = true) (sort_by shell_leb l).
+Proof. exact (sort_by_sorted shell shell_leb shell_leb_total shell_leb_trans). Qed.
+Print Assumptions sort_by_sorts.
+Theorem sort_by_permutes : forall l, Permutation.Permutation (sort_by shell_leb l) l.
+Proof. exact (sort_by_perm shell shell_leb). Qed.
+Print Assumptions sort_by_permutes.
+
+(* ---- stopping rules --------------------------------------------------------------------------------------------- *)
+Theorem stop_rules_spec : forall D C sc o st cur lr cs sr,
+  st_levels st = cur :: lr -> st_shells st = cs :: sr ->
+  (step D C o sc st = Stop st <->
+     (o_level o <> -1 /\ o_level o <= st_k st) \/
+     (o_remdup o = true /\ all_full D sc cur = true) \/
+     length (union_shells cs (accepted_next D C sc o st)) = length cs) /\
+  (step D C o sc st = Stop st \/ exists s, step D C o sc st = Continue s /\ st_k s = st_k st + 1).
+Proof. exact stop_rules_spec. Qed.
+Print Assumptions stop_rules_spec.
+Theorem all_full_spec : forall D sc l,
+  all_full D sc l = true <-> forall a, In a (sc_atoms D sc) -> length (sub_of l a) = length (sc_atoms D sc).
+Proof. exact all_full_spec. Qed.
+Print Assumptions all_full_spec.
+Example stop_rules_nonvacuous :   (* the initial state has one level and one shell list *)
+  length (st_levels (init_state ZD ex_scene)) = 1%nat /\ length (st_shells (init_state ZD ex_scene)) = 1%nat.
+Proof. vm_compute. split; reflexivity. Qed.
+
+(* ---- termination ------------------------------------------------------------------------------------------------ *)
+(* with duplicate removal, n^2 - n + 1 iterations of fuel are never exhausted (n = retained atoms) *)
+Theorem run_terminates : forall C fuel o m,
+  o_remdup o = true -> 0 <= m_unit2 ZD m ->
+  (length (retained ZD o m) * length (retained ZD o m) - length (retained ZD o m) < fuel)%nat ->
+  run ZD C fuel o m <> Raises ERecursion.
+Proof. exact run_terminates. Qed.
+Print Assumptions run_terminates.
+Example run_terminates_nonvacuous :
+  o_remdup (ex_opts (-1)) = true /\ (0 <=? m_unit2 ZD ex_mol) = true /\
+  Nat.ltb (length (retained ZD (ex_opts (-1)) ex_mol) * length (retained ZD (ex_opts (-1)) ex_mol)
+           - length (retained ZD (ex_opts (-1)) ex_mol)) 400 = true.
+Proof. vm_compute. repeat split; reflexivity. Qed.
+
+(* the same over any ring dictionary in which the neighbour test is monotone in the level *)
+Theorem run_terminates_gen : forall D C fuel o m,
+  o_remdup o = true ->
+  (forall sc, scene_of D o m = Ok sc ->
+     forall k l, 0 <= k -> near D o sc k l = true -> near D o sc (k + 1) l = true) ->
+  (length (retained D o m) * length (retained D o m) - length (retained D o m) < fuel)%nat ->
+  run D C fuel o m <> Raises ERecursion.
+Proof. exact run_terminates_gen. Qed.
+Print Assumptions run_terminates_gen.
+
+(* no assumption at all on the dictionary: 2^n + 1 iterations of fuel are never exhausted (every continuing
+   iteration records a substructure - a subset of the n retained atoms - never recorded before) *)
+Theorem run_terminates_exp : forall D C fuel o m,
+  o_remdup o = true -> (2 ^ length (retained D o m) < fuel)%nat ->
+  run D C fuel o m <> Raises ERecursion.
+Proof. exact run_terminates_exp. Qed.
+Print Assumptions run_terminates_exp.
+
+(* a level cap L <> -1 bounds the iterations by L, for every dictionary, unconditionally *)
+Theorem run_terminates_capped : forall D C fuel o m,
+  o_level o <> -1 -> (Z.to_nat (o_level o) < fuel)%nat ->
+  run D C fuel o m <> Raises ERecursion.
+Proof. exact run_terminates_capped. Qed.
+Print Assumptions run_terminates_capped.
+
+(* every option setting: the fuel 400 of the executable runs (Exec/RunM1.v) is never exhausted on molecules with
+   at most 20 retained atoms at level -1, nor with any level cap below 400 *)
+Theorem fuel_400_suffices : forall C o m,
+  0 <= m_unit2 ZD m ->
+  (if o_level o =? -1 then (length (retained ZD o m) <= 20)%nat else o_level o < 400) ->
+  run ZD C 400 o m <> Raises ERecursion.
+Proof. exact fuel_400_suffices. Qed.
+Print Assumptions fuel_400_suffices.
+
+(* ---- atom masks ------------------------------------------------------------------------------------------------- *)
+Theorem mask_exact : forall o st req mask,
+  shells_query o st req mask = filter (fun s => disjointb (s_sub s) mask) (shells_query o st req []).
+Proof. exact mask_exact. Qed.
+Print Assumptions mask_exact.
+Theorem mask_exact_In : forall o st req mask s,
+  In s (shells_query o st req mask) <->
+  In s (shells_query o st req []) /\ forall x, In x (s_sub s) -> ~ In x mask.
+Proof. exact mask_exact_In. Qed.
+Print Assumptions mask_exact_In.
